@@ -307,6 +307,9 @@ func (c *FnCtx) runTop(rep *FnReport, kf *KnownFindings) (err error) {
 	if spec.HasMod && !(c.mode == "INT" && spec.Mode == "BOTH") {
 		c.frameCheck(fr, rst)
 	}
+	if len(spec.Preserves) > 0 && !spec.HasMod {
+		c.preserveCheck(fr, rst)
+	}
 	end := c.obligation(rst, "vacuity", "return-reachable", "true", fn.Pos())
 	end.Expect = "sat"
 	end.Goal = rst.guard
@@ -368,6 +371,29 @@ func (c *FnCtx) frameCheck(fr *Frame, rst *State) {
 		}
 		o := c.obligation(rst, "frame", k, g, c.fn.Pos())
 		o.Desc = "heap component " + k + " is not in the modifies clause and must be unchanged on pre-existing objects"
+	}
+}
+
+// preserveCheck: the partial frame of a `preserves` clause: the named components are unchanged on objects that existed
+// at entry (everything else may change).
+func (c *FnCtx) preserveCheck(fr *Frame, rst *State) {
+	kept := c.eng.patternMods(c, c.spec.Preserves)
+	for _, k := range c.eng.compOrder {
+		if !kept.comps[k] {
+			continue
+		}
+		h0, h1 := c.heapGet(fr.entry, k), c.heapGet(rst, k)
+		if h0 == h1 {
+			continue
+		}
+		var g string
+		if strings.HasPrefix(c.eng.comps[k], "(Array Int") {
+			g = fmt.Sprintf("(forall ((r Int)) (=> (and (< 0 r) (< r |alloc0|)) (= (select %s r) (select %s r))))", h1, h0)
+		} else {
+			g = Eq(h1, h0)
+		}
+		o := c.obligation(rst, "frame", "preserved."+k, g, c.fn.Pos())
+		o.Desc = "heap component " + k + " is named in the preserves clause and must be unchanged on pre-existing objects"
 	}
 }
 
